@@ -224,6 +224,8 @@ pub struct HandshakeOracle {
     connects_client: BTreeMap<usize, u64>,
     connects_server: BTreeMap<(usize, SocketAddr), u64>,
     errors_client: BTreeMap<usize, u8>,
+    /// addresses for which a server reported a terminal event (Disconnect or Error)
+    ended_server: BTreeSet<(usize, SocketAddr)>,
     pairs_checked: u64,
     connects_checked: u64,
     forged_seen: u64,
@@ -255,6 +257,7 @@ impl HandshakeOracle {
             connects_client: BTreeMap::new(),
             connects_server: BTreeMap::new(),
             errors_client: BTreeMap::new(),
+            ended_server: BTreeSet::new(),
             pairs_checked: 0,
             connects_checked: 0,
             forged_seen: 0,
@@ -399,6 +402,11 @@ impl Oracle for HandshakeOracle {
                         return viol(prop, "connection_reset_by_handshake_frame", format!("client {} reported Error({}) after it had reported Connect: an established connection was ended by a handshake error frame", ep, err_name(*k)), *call);
                     }
                 }
+                (EndpointKind::Server { .. }, AppEvent::Disconnect | AppEvent::Error(_)) => {
+                    if let Some(a) = peer_addr {
+                        self.ended_server.insert((*ep, *a));
+                    }
+                }
                 (EndpointKind::Server { .. }, AppEvent::Connect) => {
                     self.connects_checked += 1;
                     let a = peer_addr.unwrap();
@@ -470,7 +478,7 @@ impl Oracle for HandshakeOracle {
                         }
                         let s_ok = self.connects_server.get(&(*server, cx.addrs[ep])).cloned().unwrap_or(0) >= 1;
                         // ... and stays connected: nothing in this family ends a connection
-                        if c_ok && s_ok && self.errors_client.get(&ep).is_none() {
+                        if c_ok && s_ok && self.errors_client.get(&ep).is_none() && !self.ended_server.contains(&(*server, cx.addrs[ep])) {
                             if let Some(active) = self.last_active.get(server) {
                                 if !active.contains(&cx.addrs[ep]) {
                                     return viol(prop, "established_connection_vanished", format!("client {} and the server both reported Connect, nothing ended the connection, but at the end of the run the server no longer holds an established connection for {}", ep, cx.addrs[ep]), 0);
